@@ -148,12 +148,12 @@ def bounds(tier):
   return dict(families=[
       [FULL + ['dict1', 'parkw'], 2, 3],
       [['pos', 'cfg', 'list2'], 2, 4],
-      [['mut2', 'par', 'list2', 'tv'], 3, 3],
-      [['cfg', 'mut', 'par', 'list2'], 3, 3],
-      [['tmp', 'cfg', 'par', 'list2'], 3, 2],
-      [['cfg', 'list2', 'tvnv', 'tv'], 3, 2],
-      [['csent', 'cnest', 'dcbase', 'dcsub', 'list2', 'cfg'], 3, 2],
-  ], dc_depth=3)
+      [['mut2', 'par', 'list2', 'tv'], 3, 2],
+      [['cfg', 'mut', 'par', 'list2'], 3, 2],
+      [['tmp', 'cfg', 'par', 'list2'], 3, 1],
+      [['cfg', 'list2', 'tvnv', 'tv'], 3, 1],
+      [['csent', 'cnest', 'dcbase', 'dcsub', 'list2', 'cfg'], 2, 2],
+  ], dc_depth=2)
 
 
 def units(tier, seed):
